@@ -39,6 +39,15 @@ var c14MsgPayloads = rapid.Custom(func(t *rapid.T) []byte {
 	if err != nil {
 		panic(err)
 	}
+	// header map entries as another encoder may legally write them: without the
+	// value field, without the key field, empty (protobuf: an absent field is
+	// the default value; appended bytes merge into the message)
+	if rapid.IntRange(0, 5).Draw(t, "partial-header-entry?") == 0 {
+		n := rapid.IntRange(1, 3).Draw(t, "partial-entries")
+		for i := 0; i < n; i++ {
+			b = append(b, rapid.SampledFrom(c14PartialHeaderEntries).Draw(t, "partial-entry")...)
+		}
+	}
 	return b
 })
 
@@ -127,9 +136,33 @@ func genC14e(t *rapid.T) c14eCase {
 			c.Payloads = append(c.Payloads, append(env, b...))
 			continue
 		}
+		if rapid.IntRange(0, 4).Draw(t, "partial-headers?") == 0 {
+			// a well-formed publish envelope whose header map has entries without a
+			// value or without a key (see c14MsgPayloads)
+			m := &client.Message{Value: []byte(rapid.StringMatching(`[a-z]{0,6}`).Draw(t, "pv")), Key: []byte(rapid.StringMatching(`[a-z]{0,3}`).Draw(t, "pk"))}
+			b, err := pb.Marshal(m)
+			if err != nil {
+				panic(err)
+			}
+			n := rapid.IntRange(1, 3).Draw(t, "partial-entries")
+			for i := 0; i < n; i++ {
+				b = append(b, rapid.SampledFrom(c14PartialHeaderEntries).Draw(t, "partial-entry")...)
+			}
+			env := append([]byte{}, vfutil.EnvelopeMagic...)
+			env = append(env, 0, 8, 0, 0)
+			c.Payloads = append(c.Payloads, append(env, b...))
+			continue
+		}
 		c.Payloads = append(c.Payloads, vfutil.GenEnvelopeBytes(t, c14MsgPayloads))
 	}
 	return c
+}
+
+var c14PartialHeaderEntries = [][]byte{
+	{0x4a, 0x03, 0x0a, 0x01, 'a'},             // key "a", no value
+	{0x4a, 0x00},                              // neither
+	{0x4a, 0x03, 0x12, 0x01, 'b'},             // value "b", no key
+	{0x4a, 0x05, 0x0a, 0x01, 'c', 0x12, 0x00}, // key "c", explicit empty value
 }
 
 var (
